@@ -304,10 +304,10 @@ Proof.
   induction ps as [|p t IH]; intros obs b st H poff pws Hb T Hw; destruct obs as [|[[off ws] r] obs'];
     cbn [check_run_lit obs_ok_lit]; try (split; [discriminate|contradiction]); [tauto|].
   cbn [fst snd]. inversion Hw as [|x l Hw1 Hw2]; subst. cbn [fst snd] in Hw1.
-  assert (Hnow : (b || is_compact p) = true <-> (st \/ p = PCompact)).
-  { rewrite orb_true_iff, Hb. destruct p; cbn [is_compact]; split; intros [A|A]; try (left; exact A);
-      try discriminate; right; reflexivity. }
-  assert (Hnext : ((b || is_compact p) || head_okb ws) = true <-> ((st \/ p = PCompact) \/ head_okP ws)).
+  assert (Hnow : (b || touches_head poff p) = true <-> (st \/ touches_head poff p = true)).
+  { rewrite orb_true_iff, Hb. tauto. }
+  assert (Hnext : ((b || touches_head poff p) || head_okb ws) = true <->
+                  ((st \/ touches_head poff p = true) \/ head_okP ws)).
   { rewrite orb_true_iff, Hnow, s_head_okb_iff. tauto. }
   rewrite andb_true_iff. split.
   - intros [E1 E2].
